@@ -68,7 +68,9 @@ Qed.
 (* ---- the connection table ---------------------------------------------------------- *)
 Definition shape (x : conn) : N * bool := (c_id x, c_active x).
 Definition shapes (cs : list conn) : list (N * bool) := map shape cs.
-Definition bounded (lim : N) (cs : list conn) : Prop := forall x, In x cs -> nlen (c_owned x) <= lim.
+(* a bound on services_owned that may depend on the connection *)
+Definition boundedf (f : N -> N) (cs : list conn) : Prop := forall x, In x cs -> nlen (c_owned x) <= f (c_id x).
+Definition bounded (lim : N) (cs : list conn) : Prop := boundedf (fun _ => lim) cs.
 
 Lemma ids_shapes cs : ids cs = map fst (shapes cs).
 Proof. unfold ids, shapes. rewrite map_map. reflexivity. Qed.
@@ -117,18 +119,25 @@ Proof.
     + apply existsb_key in H. rewrite H in E. discriminate.
 Qed.
 
-Lemma own_del_bounded lim cs c k : bounded lim cs -> bounded lim (own_del cs c k).
+Lemma own_del_boundedf f cs c k : boundedf f cs -> boundedf f (own_del cs c k).
 Proof.
   intros B y Hy. apply upd_conn_in in Hy. destruct Hy as [Hy|[x [Hx ->]]]; [apply B; exact Hy|].
   apply find_conn_in in Hx. destruct Hx as [Hx _]. specialize (B x Hx). simpl. unfold nlen in *.
   pose proof (remove_last_length k (c_owned x)). lia.
 Qed.
 
-Lemma own_add_bounded lim cs c k x : bounded lim cs -> find_conn cs c = Some x -> nlen (c_owned x) < lim -> bounded lim (own_add cs c k).
+Lemma own_add_boundedf f lim cs c k x : boundedf f cs -> find_conn cs c = Some x -> nlen (c_owned x) < lim -> lim <= f (c_id x) ->
+  boundedf f (own_add cs c k).
 Proof.
-  intros B Hx Hl y Hy. apply upd_conn_in in Hy. destruct Hy as [Hy|[x' [Hx' ->]]]; [apply B; exact Hy|].
+  intros B Hx Hl Hf y Hy. apply upd_conn_in in Hy. destruct Hy as [Hy|[x' [Hx' ->]]]; [apply B; exact Hy|].
   rewrite Hx in Hx'. inversion Hx'; subst x'. simpl. rewrite nlen_app. unfold nlen at 2. simpl. lia.
 Qed.
+
+Lemma own_del_bounded lim cs c k : bounded lim cs -> bounded lim (own_del cs c k).
+Proof. apply own_del_boundedf. Qed.
+
+Lemma own_add_bounded lim cs c k x : bounded lim cs -> find_conn cs c = Some x -> nlen (c_owned x) < lim -> bounded lim (own_add cs c k).
+Proof. intros B Hx Hl. eapply own_add_boundedf; eauto. simpl. lia. Qed.
 
 Lemma find_conn_shapes cs cs' c : shapes cs = shapes cs' ->
   option_map c_active (find_conn cs c) = option_map c_active (find_conn cs' c).
